@@ -95,6 +95,6 @@ pub fn def() -> PropertyDef {
             "size bound bits*capacity <= 2048 (quick F) / 512 (quick R) / 8192 (thorough F) / 2048 (thorough R) is a cost bound of the check".into(),
         ],
         exhaustive: false,
-        subs: vec![sub_for::<F>((4000, 100_000)), sub_for::<R>((400, 10_000))],
+        subs: vec![sub_for::<F>((20_000, 200_000)), sub_for::<R>((2000, 15_000))],
     }
 }
